@@ -246,11 +246,10 @@ def leading_zero_stream(ck, keys, limit=4000):
 def corpus_stream(ck, tmp, keys):
     """Regression witnesses: F1 (cbor2 >= 6 decodes the tagged map immutably: every sign call failed) on the test-suite's root envelope."""
     fails, reqs, keep = [], [], []
-    for i, alg in enumerate(ALGS):
-        kn = keys.for_alg(alg)
+    for i, (alg, kn) in enumerate([(a, keys.for_alg(a)) for a in ALGS] + [(a, keys.for_alg(a, 5)) for a in ALGS]):     # PEM files, then DER files
         kid = 0x4000AA00
         r = sl.lib_single(tmp, CORPUS_ENVELOPE, kn, kid, alg, keys.dir, "error")
-        ck.count("corpus", ("F1", alg), nontrivial=True, sample={"witness": "F1: tests/test_cmd_sign.py UNSIGNED_ROOT_INPUT_ENVELOPE", "alg": alg, "key_id": kid})
+        ck.count("corpus", ("F1", alg, kn), nontrivial=True, sample={"witness": "F1: tests/test_cmd_sign.py UNSIGNED_ROOT_INPUT_ENVELOPE", "alg": alg, "key_id": kid, "key_file": "DER" if kn.startswith("kd_") else "PEM"})
         why = f"rejected with {r[1]} (F1 is back?)" if r[0] != "ok" else oracle_signed(CORPUS_ENVELOPE, r[1], keys, kn, alg, kid)
         if why:
             fails.append(rec("single-level", keys, CORPUS_ENVELOPE, kn, alg, kid, why))
@@ -410,7 +409,7 @@ def replay(path):
         if inp.get("private_key_pem"):
             from cryptography.hazmat.primitives.serialization import load_pem_private_key
             key = load_pem_private_key(inp["private_key_pem"].encode(), None)
-            keys.add(inp["key_name"], key, *sl.kind_of_key(key))
+            keys.add(inp["key_name"], key, *sl.kind_of_key(key), der=inp["key_name"].startswith("kd_"))     # kd_*: stored as <name>.der
         if op == "history":
             from cryptography.hazmat.primitives.serialization import load_pem_private_key
             stores = []
